@@ -5,7 +5,10 @@
     * `Render::write` / `Part::write` and the `Write` trait defaults                          (:306-319, :334-403, :570-591)
     * `to_owned` / `by_ref` / `literal` conversions                                           (:91-93, :118-125, :538-551, :706-759)
     * `PartialEq for Template` — the two-cursor, fragment-split-insensitive comparison        (:180-273)
-      (after `fix: compare template text fragments as bytes and skip empty fragments in Template equality`)
+      (after `fix: compare template text fragments as bytes and skip empty fragments in Template equality`;
+      all line numbers are those of the tree with that commit: +14 after :199 w.r.t. the anchors in properties.jsonl.
+      The comparison as it was before the fix — `&str` slicing with an explicit panic outcome where the offset is not a
+      char boundary — is in the history of this file: commit "C16 step 1".)
 
   Byte strings are `List UInt8` (UTF-8 of the Rust `&str`). A hole formatter is a Rust
   `fn(Value, &mut fmt::Formatter) -> fmt::Result`; the model names it by a number (the harness owns a
@@ -29,7 +32,7 @@ def asLiteral : List Part → Option (List UInt8)
   | [.text t] => some t
   | _ => none
 
-/-- The loop after the `while` (:246-254): every remaining part must be an empty text fragment. -/
+/-- The loop after the `while` (:260-268): every remaining part must be an empty text fragment. -/
 def restEmpty (ps : List Part) : Bool :=
   ps.all fun p => match p with
     | .text t => t.isEmpty
